@@ -18,6 +18,11 @@ URI_POOL_ADVERSARIAL = [
     "http://zv.test/messages", "http://zv.test/mes", "http://zv.test/x/messages", "urn:mes", "http://zv.test/soapenv",
     "http://zv.test/w3/xs", "http://zv.test/a", "http://zv.test/b/a", "http://zv.test/c-a", "http://zv.test/1/2/3",
     "http://zv.test/123", "http://zv.test/_", "http://zv.test/é/漢字", "http://zv.test/mod", "http://zv.test/r/self",
+    # URIs that are different namespaces (namespace names are compared as strings) but equal under some URL normalisation
+    "http://zv.test/types", "http://zv.test/ns/orders", "http://zv.test/ns/orders/", "http://zv.test/ns/orders//",
+    "http://zv.test/ns/Case", "http://zv.test/ns/case", "http://zv.test/sch", "https://zv.test/sch", "http://zv.test/frag",
+    "http://zv.test/frag#", "http://zv.test:80/sch", "http://ZV.test/sch", "http://zv.test/a%20b", "http://zv.test/a%2Fb",
+    "http://zv.test/a/b", "urn:zv:Case", "urn:zv:case", "http://zv.test/ns/../ns/orders",
 ]
 # URIs that zeep's three-letter abbreviation scheme maps to the same (or a confusable) abbreviation
 COLLISION_GROUPS = [
@@ -31,6 +36,12 @@ COLLISION_GROUPS = [
     ["http://zv.test/messages", "http://zv.test/mes", "http://zv.test/x/messages", "urn:mes"],
     ["http://zv.test/a", "http://zv.test/b/a", "http://zv.test/c-a"],
     ["http://zv.test/123", "http://zv.test/1/2/3"],
+    ["http://zv.test/ns/orders", "http://zv.test/ns/orders/", "http://zv.test/ns/orders//", "http://zv.test/ns/../ns/orders"],
+    ["http://zv.test/types", "http://zv.test/types/", "http://zv.test/TYPES"],
+    ["http://zv.test/ns/Case", "http://zv.test/ns/case", "urn:zv:Case", "urn:zv:case"],
+    ["http://zv.test/sch", "https://zv.test/sch", "http://zv.test:80/sch", "http://ZV.test/sch"],
+    ["http://zv.test/frag", "http://zv.test/frag#"],
+    ["http://zv.test/a%2Fb", "http://zv.test/a/b", "http://zv.test/a%20b"],
 ]
 PREFIX_POOL = ["tns", "t", "ns1", "ns2", "a", "b", "m", "typ", "msg", "q", "p", "x", "s1", "core", "base"]
 
